@@ -1744,6 +1744,12 @@ func (t *Topic) thisUserSub(sess *Session, pkt *ClientComMessage, asUid types.Ui
 			}
 		}
 
+		if !userData.modeGiven.IsJoiner() {
+			// The user is banned: reject before anything is changed or saved.
+			sess.queueOut(ErrPermissionDeniedReply(pkt, now))
+			return nil, errors.New("topic access denied; user is banned")
+		}
+
 		// If user has not requested a new access mode, provide one by default.
 		if modeWant == types.ModeUnset {
 			// If the user has self-banned before, un-self-ban. Otherwise do not make a change.
